@@ -667,15 +667,50 @@ func (p *Program) evalCodeTable(v ssa.Value) (map[int64]string, string, error) {
 
 var specUnits = map[int64]int64{'H': 3600e9, 'M': 60e9, 'S': 1e9, 'm': 1e6, 'u': 1e3, 'n': 1}
 
+// byteFuncTable evaluates a pure function of one byte for all 256 arguments (whether it is written as a switch, an
+// if chain or a lookup in a package-level constant table) and returns it in the form of switchConstTable: the
+// entries that differ from the most frequent value, and that value as the default. Falls back to reading the
+// function's switch statement when the body cannot be evaluated.
+func (p *Program) byteFuncTable(name string, fd *ast.FuncDecl) (map[int64]int64, int64, error) {
+	fn := p.LarkSSA.Func(name)
+	if fn != nil && len(fn.Params) == 1 {
+		vals := make([]int64, 256)
+		ok := true
+		for c := int64(0); c < 256 && ok; c++ {
+			vals[c], ok = interpPureP(p, fn, c, 0)
+		}
+		if ok {
+			count := map[int64]int{}
+			for _, v := range vals {
+				count[v]++
+			}
+			def, best := int64(0), -1
+			for v, n := range count {
+				if n > best || (n == best && v < def) {
+					def, best = v, n
+				}
+			}
+			got := map[int64]int64{}
+			for c, v := range vals {
+				if v != def {
+					got[int64(c)] = v
+				}
+			}
+			return got, def, nil
+		}
+	}
+	return switchConstTable(p.Lark, fd)
+}
+
 func ruleUnitTable(r *Run) {
 	p := r.P
 	fd := p.FuncDecl("", "timeoutUnit")
 	if fd == nil {
 		r.missing("func timeoutUnit")
 	} else {
-		got, def, err := switchConstTable(p.Lark, fd)
+		got, def, err := p.byteFuncTable("timeoutUnit", fd)
 		if err != nil {
-			r.undecided("timeoutUnit", fd.Pos(), "cannot evaluate as a constant switch table: %v", err)
+			r.undecided("timeoutUnit", fd.Pos(), "cannot evaluate as a constant table: %v", err)
 		} else {
 			var keys []int64
 			for k := range specUnits {
